@@ -332,7 +332,17 @@ func (pool *RangedPool) Price() sdkmath.LegacyDec {
 	if pool.rx.IsZero() && pool.ry.IsZero() {
 		panic("pool price is not defined for a depleted pool")
 	}
-	return pool.xComp.Quo(pool.yComp) // (rx + transX) / (ry + transY)
+	p := pool.xComp.Quo(pool.yComp) // (rx + transX) / (ry + transY)
+	// The translation is derived with 18-decimal square roots and inverses, so
+	// the quotient can land outside the configured range; a ranged pool never
+	// quotes a price outside [minPrice, maxPrice].
+	if p.LT(pool.minPrice) {
+		return pool.minPrice
+	}
+	if p.GT(pool.maxPrice) {
+		return pool.maxPrice
+	}
+	return p
 }
 
 // IsDepleted returns whether the pool is depleted or not.
